@@ -189,6 +189,10 @@ def run(ctx):
             do(ctx, 'z2inv_corr', ['np', m], nontrivial=('z', str(m)))
             do(ctx, 'z2inv_oracle', ['np', m])
     # LARGE registers: byte, word and cache-line boundaries of every packed or vectorised representation (8, 9, 16, 17, 33, 64, 65 qubits); model correspondence only
+    for n in (129, 160):          # more than 256 tableau rows (an index no longer fits one byte)
+        a, b = gen.rmap(rng, ctx.model, n, depth=n), gen.rmap(rng, ctx.model, n, depth=n // 2)
+        do(ctx, 'compose_corr', ['np', a, b], nontrivial=('huge', n))
+        do(ctx, 'inverse_corr', ['np', a], nontrivial=('hugei', n))
     for n in gen.BIG + [20, 24, 28]:
         for be in (['np', 'torch'] if n <= 33 else ['np']):
             # DENSE maps (4n rotations): elimination kernels accumulate most on them
